@@ -4,7 +4,7 @@
    value is indistinguishable (root, encoding, returned count) from a freshly constructed one. *)
 Require Import RM.Base RM.Gindex RM.Tree RM.TreeProofs RM.Types RM.Spec RM.ModelViews RM.ModelCodec RM.ModelMut
                RM.SerLen RM.FactsProofs RM.MerkleProofs RM.PackProofs RM.CtorProofs RM.PathProofs RM.CRepProofs
-               RM.ListProofs RM.SerProofs RM.CodecBasicProofs RM.SerProofs2 RM.BitProofs RM.ChunkProofs RM.SerAll RM.ReprProofs RM.IterProofs.
+               RM.ListProofs RM.SerProofs RM.CodecBasicProofs RM.SerProofs2 RM.BitProofs RM.ChunkProofs RM.SerAll RM.ReprProofs RM.IterProofs RM.DeserProofs.
 From Coq Require Import ZifyBool ZifyNat ZifyN.
 Local Open Scope N_scope.
 Section WithHash.
@@ -416,6 +416,267 @@ Proof.
     + apply forallb_forall. intros x Hx. rewrite forallb_forall in Hall. apply Hall. now apply In_removelast in Hx.
 Qed.
 End OneList.
+
+(* ==== packed (basic) elements ==== *)
+(* ---- uniform pieces: chunks, groups and updates ---- *)
+Local Open Scope nat_scope.
+
+Lemma chunks_of_uniform (s epc : nat) (ls : list bytes) : s * epc = 32 -> 0 < s ->
+  Forall (fun l => length l = s) ls ->
+  chunks (concat ls) = map (fun g => pad32 (concat g)) (group epc ls).
+Proof.
+  intros Hse Hs Hall. assert (0 < epc) as He by (destruct epc; lia).
+  rewrite chunks_group. unfold group. rewrite <- Hse, (Nat.mul_comm s epc).
+  rewrite (group_concat_uniform s epc Hs He (length ls) _ ls Hall (le_n _) (le_n _)).
+  now rewrite map_map.
+Qed.
+
+Lemma concat_upd_uniform (s : nat) : forall (ls : list bytes) j (eb : bytes), Forall (fun l => length l = s) ls -> j < length ls ->
+  concat (upd j eb ls) = firstn (s * j) (concat ls) ++ eb ++ skipn (s * (j + 1)) (concat ls).
+Proof.
+  induction ls as [|l ls IH]; intros j eb Hall Hj; [cbn in Hj; lia|].
+  inversion Hall as [|? ? Hl Hls]; subst. destruct j as [|j]; cbn [upd concat].
+  - rewrite Nat.mul_0_r. cbn [firstn app]. replace (length l * (0 + 1)) with (length l) by lia.
+    rewrite skipn_app. rewrite (skipn_all2 l) by lia. rewrite Nat.sub_diag. reflexivity.
+  - rewrite (IH j eb Hls) by (cbn in Hj; lia).
+    replace (length l * S j) with (length l + length l * j) by lia.
+    replace (length l * (S j + 1)) with (length l + length l * (j + 1)) by lia.
+    rewrite firstn_app, skipn_app. rewrite (firstn_all2 l) by lia. rewrite (skipn_all2 l) by lia.
+    replace (length l + length l * j - length l) with (length l * j) by lia.
+    replace (length l + length l * (j + 1) - length l) with (length l * (j + 1)) by lia.
+    cbn [app]. now rewrite <- app_assoc.
+Qed.
+
+(* BasicView.backing_from_base: splicing an element into a chunk = updating the piece *)
+Lemma splice_concat (s : nat) (g : list bytes) (j : nat) (eb : bytes) : Forall (fun l => length l = s) g ->
+  j < length g -> length eb = s -> length (concat g) <= 32 ->
+  splice (pad32 (concat g)) (N.of_nat j) eb = pad32 (concat (upd j eb g)).
+Proof.
+  intros Hall Hj Heb H32. unfold splice. rewrite Nat2N.id, Heb.
+  pose proof (concat_uniform_length s g Hall) as Hlen.
+  rewrite (concat_upd_uniform s g j eb Hall Hj). unfold bytes in *.
+  unfold pad32, pad_to.
+  assert (s * (j + 1) <= length (concat g)) as Hb by (rewrite Hlen; nia).
+  assert (s * j <= s * (j + 1)) as Hb2 by (apply Nat.mul_le_mono_l; lia).
+  rewrite firstn_app. replace (s * j - length (concat g)) with 0 by lia. cbn [firstn]. rewrite app_nil_r.
+  rewrite skipn_app. replace (s * (j + 1) - length (concat g)) with 0 by lia. cbn [skipn].
+  rewrite !app_length, firstn_length, skipn_length, Heb.
+  replace (s * (j + 1)) with (s * j + s) in * by lia.
+  replace (Nat.min (s * j) (length (concat g)) + (s + (length (concat g) - (s * j + s)))) with (length (concat g)) by lia.
+  now rewrite <- !app_assoc.
+Qed.
+
+Lemma upd_nil {A} i (x : A) : upd i x [] = [].
+Proof. destruct i; reflexivity. Qed.
+Lemma firstn_upd_lt {A} (x : A) : forall l i k, i < k -> firstn k (upd i x l) = upd i x (firstn k l).
+Proof.
+  induction l as [|h l IH]; intros i k Hik; [now rewrite upd_nil, firstn_nil, upd_nil|].
+  destruct k as [|k]; [lia|]. destruct i as [|i]; cbn [upd firstn]; [reflexivity|]. f_equal. apply IH. lia.
+Qed.
+Lemma skipn_upd_lt {A} (x : A) : forall l i k, i < k -> skipn k (upd i x l) = skipn k l.
+Proof.
+  induction l as [|h l IH]; intros i k Hik; [now rewrite upd_nil|].
+  destruct k as [|k]; [lia|]. destruct i as [|i]; cbn [upd skipn]; [reflexivity|]. apply IH. lia.
+Qed.
+Lemma firstn_upd_ge {A} (x : A) : forall l i k, k <= i -> firstn k (upd i x l) = firstn k l.
+Proof.
+  induction l as [|h l IH]; intros i k Hik; [now rewrite upd_nil|].
+  destruct k as [|k]; [reflexivity|]. destruct i as [|i]; [lia|]. cbn [upd firstn]. f_equal. apply IH. lia.
+Qed.
+Lemma skipn_upd_ge {A} (x : A) : forall l i k, k <= i -> skipn k (upd i x l) = upd (i - k) x (skipn k l).
+Proof.
+  induction l as [|h l IH]; intros i k Hik; [now rewrite upd_nil, skipn_nil, upd_nil|].
+  destruct k as [|k]; [now rewrite Nat.sub_0_r|]. destruct i as [|i]; [lia|]. cbn [upd skipn]. change (S i - S k) with (i - k). apply IH. lia.
+Qed.
+
+(* updating element i of the flat list updates piece (i mod k) of group (i / k) *)
+Lemma group_fuel_upd {A} (k : nat) : 0 < k -> forall f (ls : list A) i x, length ls <= f -> i < length ls ->
+  group_fuel f k (upd i x ls) = upd (i / k) (upd (i mod k) x (nth (i / k) (group_fuel f k ls) [])) (group_fuel f k ls).
+Proof.
+  intros Hk. induction f as [|f IH]; intros ls i x Hf Hi; [destruct ls; cbn in *; lia|].
+  destruct ls as [|a ls]; [cbn in Hi; lia|].
+  cbn [group_fuel]. destruct (upd i x (a :: ls)) as [|b ls'] eqn:Eu; [destruct i; discriminate|]. rewrite <- Eu.
+  destruct (Nat.lt_ge_cases i k) as [Hlt|Hge].
+  - rewrite (Nat.div_small i k Hlt), (Nat.mod_small i k Hlt). cbn [upd nth].
+    rewrite (firstn_upd_lt x _ i k Hlt), (skipn_upd_lt x _ i k Hlt). reflexivity.
+  - assert (i / k = S ((i - k) / k)) as Ediv.
+    { replace i with ((i - k) + 1 * k) at 1 by lia. rewrite Nat.div_add by lia. lia. }
+    assert (i mod k = (i - k) mod k) as Emod.
+    { replace i with ((i - k) + 1 * k) at 1 by lia. rewrite Nat.mod_add by lia. reflexivity. }
+    rewrite Ediv, Emod. cbn [upd nth].
+    rewrite (firstn_upd_ge x _ i k Hge), (skipn_upd_ge x _ i k Hge). f_equal.
+    apply IH; rewrite skipn_length; cbn [length] in *; lia.
+Qed.
+Lemma group_fuel_nth {A} (k : nat) : 0 < k -> forall f (l : list A) i, length l <= f -> i < length l ->
+  i mod k < length (nth (i / k) (group_fuel f k l) []) /\ length (nth (i / k) (group_fuel f k l) []) <= k /\
+  (forall y, In y (nth (i / k) (group_fuel f k l) []) -> In y l) /\ i / k < length (group_fuel f k l).
+Proof.
+  intros Hk. induction f as [|f IH]; intros l i Hf Hi; [destruct l; cbn in *; lia|].
+  destruct l as [|a l]; [cbn in Hi; lia|]. cbn [group_fuel].
+  destruct (Nat.lt_ge_cases i k) as [Hlt|Hge].
+  - rewrite (Nat.div_small i k Hlt), (Nat.mod_small i k Hlt). cbn [nth length].
+    rewrite firstn_length. repeat split; try lia. intros y Hy. eapply In_firstn; eauto.
+  - assert (i / k = S ((i - k) / k)) as Ediv.
+    { replace i with ((i - k) + 1 * k) at 1 by lia. rewrite Nat.div_add by lia. lia. }
+    assert (i mod k = (i - k) mod k) as Emod.
+    { replace i with ((i - k) + 1 * k) at 1 by lia. rewrite Nat.mod_add by lia. reflexivity. }
+    rewrite Ediv, Emod. cbn [nth length].
+    destruct (IH (skipn k (a :: l)) (i - k)) as (H1 & H2 & H3 & H4); [rewrite skipn_length; cbn [length] in *; lia|rewrite skipn_length; cbn [length] in *; lia|].
+    repeat split; try lia; auto. intros y Hy. eapply In_skipn. apply H3. exact Hy.
+Qed.
+
+Lemma map_upd {A B} (F : A -> B) : forall l i x, map F (upd i x l) = upd i (F x) (map F l).
+Proof. induction l as [|h l IH]; intros [|i] x; cbn; auto. now rewrite IH. Qed.
+
+(* writing element i of a packed sequence = splicing its bytes into chunk i / epc *)
+Lemma packed_set_chunks e s (vs : list val) (i : nat) (x : val) :
+  wf_ty e = true -> basic_size e = Some s -> forallb (wf e) vs = true -> wf e x = true -> i < length vs ->
+  let epc := N.to_nat (elems_per_chunk s) in
+  chunks (concat (map (ser e) (upd i x vs))) =
+  upd (i / epc) (splice (nth (i / epc) (chunks (concat (map (ser e) vs))) []) (N.of_nat (i mod epc)) (ser e x))
+      (chunks (concat (map (ser e) vs))).
+Proof.
+  intros Hw E Hall Hx Hi epc. pose proof (basic_size_ok e s Hw E) as Hs.
+  set (s' := N.to_nat s).
+  assert (s' * epc = 32 /\ 0 < s' /\ 0 < epc) as (Hse & Hs0 & He0) by (unfold s', epc, elems_per_chunk; destruct Hs as [ -> | [ -> | [ -> | [ -> | [ -> | -> ]]]]]; cbn; lia).
+  set (ls := map (ser e) vs).
+  assert (Forall (fun l => length l = s') ls) as Hu.
+  { apply Forall_forall. intros b Hb. apply in_map_iff in Hb as (y & <- & Hy). apply (ser_basic_length e s y Hw E). rewrite forallb_forall in Hall. now apply Hall. }
+  assert (length (ser e x) = s') as Hxl by (apply (ser_basic_length e s x Hw E Hx)).
+  rewrite map_upd. fold ls.
+  assert (Forall (fun l => length l = s') (upd i (ser e x) ls)) as Hu'.
+  { apply Forall_forall. intros b Hb. rewrite Forall_forall in Hu.
+    clear - Hb Hu Hxl. revert i Hb. induction ls as [|h l IH]; intros [|i] Hb; cbn in Hb; try tauto.
+    - destruct Hb as [<-|Hb]; [exact Hxl|apply Hu; now right].
+    - destruct Hb as [<-|Hb]; [apply Hu; now left|]. apply (IH (fun y Hy => Hu y (or_intror Hy)) i Hb). }
+  rewrite (chunks_of_uniform s' epc _ Hse Hs0 Hu'), (chunks_of_uniform s' epc _ Hse Hs0 Hu).
+  unfold group. rewrite upd_len.
+  assert (i < length ls) as Hil by (unfold ls; now rewrite map_length).
+  rewrite (group_fuel_upd epc He0 (length ls) ls i (ser e x) (le_n _) Hil).
+  destruct (group_fuel_nth epc He0 (length ls) ls i (le_n _) Hil) as (Hj & Hgl & Hin & Hci).
+  set (G := group_fuel (length ls) epc ls) in *. set (g := nth (i / epc) G []) in *.
+  rewrite map_upd. f_equal.
+  match goal with |- context [nth ?c (map ?F ?GG) ?d] =>
+    assert (nth c (map F GG) d = F g) as -> by (rewrite (nth_indep _ d (F [])) by (now rewrite map_length); unfold g; apply (map_nth F)) end.
+  assert (Forall (fun l => length l = s') g) as Hug.
+  { apply Forall_forall. intros b Hb. rewrite Forall_forall in Hu. apply Hu. now apply Hin. }
+  symmetry. apply (splice_concat s' g (i mod epc) (ser e x) Hug Hj Hxl).
+  rewrite (concat_uniform_length s' g Hug). apply Nat.le_trans with (epc * s'); [apply Nat.mul_le_mono_r; exact Hgl|lia].
+Qed.
+Local Open Scope N_scope.
+
+(* a basic element's backing carries its encoding in the first s bytes *)
+Lemma basic_repr_bytes e s x m : wf_ty e = true -> basic_size e = Some s -> wf e x = true -> Repr e x m ->
+  firstn (N.to_nat s) (root m) = ser e x.
+Proof.
+  intros Hw E Hx Hr. destruct (mk_basic_ser e s x Hw E Hx) as (v & Hv & Hs).
+  assert (mk e x = Ok m) as Hm by (destruct e; cbn in E; try discriminate; exact Hr).
+  assert (m = RootN (pad32 (le_bytes (N.to_nat s) v))) as ->.
+  { destruct e; cbn in E; try discriminate; inversion E; subst; cbn [ModelViews.mk] in Hm; rewrite Hv in Hm; cbn [bind] in Hm; now inversion Hm. }
+  cbn [Tree.root]. rewrite Hs. pose proof (ser_basic_length e s x Hw E Hx) as Hl. rewrite <- Hl. apply firstn_pad32.
+  rewrite Hl. pose proof (basic_size_ok e s Hw E). lia.
+Qed.
+
+(* the chunk-level write shared by packed vectors and lists, over abstract accessors *)
+Lemma packed_write (setp : N -> node -> result node) (getp : N -> result node) (wrap : node -> node)
+    (d : nat) (c0 : node) e s (vs : list val) (i : N) (x : val) (m : node) :
+  wf_ty e = true -> basic_size e = Some s -> forallb (wf e) vs = true -> wf e x = true -> Repr e x m ->
+  i < lenN vs -> CRep d c0 (map RootN (chunks (concat (map (ser e) vs)))) ->
+  (forall j v, j < lenN (chunks (concat (map (ser e) vs))) ->
+     exists c', setp j v = Ok (wrap c') /\ CRep d c' (upd (N.to_nat j) v (map RootN (chunks (concat (map (ser e) vs)))))) ->
+  (forall j, j < lenN (chunks (concat (map (ser e) vs))) ->
+     getp j = Ok (nth (N.to_nat j) (map RootN (chunks (concat (map (ser e) vs)))) (RootN zero32))) ->
+  let epc := elems_per_chunk s in
+  exists c',
+    (do probe <- setp (i / epc) (RootN zero32);
+     do c <- getp (i / epc);
+     setp (i / epc) (RootN (splice (root c) (i mod epc) (firstn (N.to_nat s) (root m))))) = Ok (wrap c') /\
+    CRep d c' (map RootN (chunks (concat (map (ser e) (upd (N.to_nat i) x vs))))).
+Proof.
+  intros Hw E Hall Hx Hr Hi Hc Hset Hget epc. pose proof (basic_size_ok e s Hw E) as Hs.
+  set (D := concat (map (ser e) vs)) in *.
+  assert (1 <= epc /\ N.to_nat epc = N.to_nat (elems_per_chunk s)) as [Hepc _] by (unfold epc, elems_per_chunk; destruct Hs as [ -> | [ -> | [ -> | [ -> | [ -> | -> ]]]]]; cbn; lia).
+  pose proof (packed_set_chunks e s vs (N.to_nat i) x Hw E Hall Hx ltac:(unfold lenN in Hi; lia)) as Hch. cbv zeta in Hch. fold D in Hch.
+  assert (N.to_nat i / N.to_nat (elems_per_chunk s) = N.to_nat (i / epc))%nat as Ediv by (unfold epc; rewrite N2Nat.inj_div; reflexivity).
+  assert (N.to_nat i mod N.to_nat (elems_per_chunk s) = N.to_nat (i mod epc))%nat as Emod by (unfold epc; rewrite N2Nat.inj_mod; reflexivity).
+  rewrite Ediv, Emod, N2Nat.id in Hch.
+  (* the chunk index is in range *)
+  assert (i / epc < lenN (chunks D)) as Hci.
+  {     assert (forallb (wf e) (upd (N.to_nat i) x vs) = true) as Hall' by (apply forallb_upd; assumption).
+    pose proof (f_equal (@length bytes) Hch) as Hlen. rewrite upd_len in Hlen.
+    destruct (Nat.lt_ge_cases (N.to_nat (i / epc)) (length (chunks D))) as [Hlt|Hge]; [unfold lenN; lia|exfalso].
+    (* otherwise element i would lie beyond the data *)
+    rewrite chunks_length in Hge. unfold D in Hge. rewrite (concat_ser_length e s vs Hw E Hall) in Hge.
+    unfold lenN in Hi. pose proof (N.div_mod i epc ltac:(lia)) as Hdm. pose proof (N.mod_lt i epc ltac:(lia)) as Hml.
+    assert (N.to_nat s * N.to_nat epc = 32)%nat as Hse by (unfold epc, elems_per_chunk; destruct Hs as [ -> | [ -> | [ -> | [ -> | [ -> | -> ]]]]]; cbn; lia).
+    pose proof (Nat.div_mod (length vs * N.to_nat s + 31) 32 ltac:(lia)) as Hq. pose proof (Nat.mod_upper_bound (length vs * N.to_nat s + 31) 32 ltac:(lia)) as Hr'.
+    set (q := ((length vs * N.to_nat s + 31) / 32)%nat) in *. set (ci := i / epc) in *. set (r := i mod epc) in *.
+    assert (N.to_nat i = N.to_nat epc * N.to_nat ci + N.to_nat r)%nat as Hi' by lia.
+    assert (32 * q <= 32 * N.to_nat ci)%nat as H1 by lia.
+    assert (N.to_nat i * N.to_nat s = 32 * N.to_nat ci + N.to_nat r * N.to_nat s)%nat as H2 by (rewrite Hi'; nia).
+    nia. }
+  fold D in Hset, Hget.
+  destruct (Hset (i / epc) (RootN zero32) Hci) as (pr & Hpr & _). rewrite Hpr. cbn [bind].
+  rewrite (Hget (i / epc) Hci). cbn [bind].
+  rewrite (nth_map_RootN (chunks D)) by (unfold lenN, bytes in *; lia). cbn [Tree.root].
+  rewrite (basic_repr_bytes e s x m Hw E Hx Hr).
+  destruct (Hset (i / epc) (RootN (splice (nth (N.to_nat (i / epc)) (chunks D) zero32) (i mod epc) (ser e x))) Hci) as (c' & Hs' & Hc'). rewrite Hs'.
+  exists c'. split; [reflexivity|]. rewrite Hch, map_upd.
+  rewrite (nth_indep _ [] zero32) by (unfold lenN, bytes in *; lia). exact Hc'.
+Qed.
+(* list-like backing: writes go through the length mix-in *)
+Lemma crep_setter_i_list d c lenn ns i x : CRep d c ns -> i < lenN ns ->
+  exists c', setter_i H src false (PairN c lenn) i (S d) x = Ok (PairN c' lenn) /\ CRep d c' (upd (N.to_nat i) x ns).
+Proof.
+  intros Hc Hi. pose proof (CRep_len H _ _ _ Hc) as Hl. pose proof (pow_nat_N d) as Hp.
+  assert (i < 2 ^ N.of_nat d) as Hi1 by (unfold lenN in Hi; lia).
+  assert (i < 2 ^ N.of_nat (S d)) as Hi2 by (rewrite Nat2N.inj_succ, N.pow_succ_r'; lia).
+  unfold setter_i. rewrite (to_gindex_ok i (S d) Hi2). cbn [bind]. unfold setter_g. rewrite (path_of_to_gindex (S d) i Hi2).
+  cbn [be_bits]. rewrite (testbit_top i d Hi2). assert ((2 ^ N.of_nat d <=? i) = false) as -> by (apply N.leb_gt; exact Hi1).
+  rewrite setter_unfold. cbn [Tree.setter_below children].
+  destruct (CRep_set H src false _ _ _ Hc i x Hi) as (c' & Hs & Hc'). rewrite Hs. cbn [rebuild]. eauto.
+Qed.
+
+Theorem packed_vector_set e k s vs n i x m : wf_ty (TVector e k) = true -> basic_size e = Some s ->
+  wf (TVector e k) (VSeq vs) = true -> Repr (TVector e k) (VSeq vs) n -> (0 <= i < Z.of_N k)%Z -> wf e x = true -> Repr e x m ->
+  exists n', view_set H src (TVector e k) n i m = Ok n' /\ Repr (TVector e k) (VSeq (upd (Z.to_nat i) x vs)) n'.
+Proof.
+  intros Hty E Hwf Hr Hi Hx Hm. cbn [wf] in Hwf. apply andb_true_iff in Hwf as [Hn Hall]. apply N.eqb_eq in Hn.
+  cbn [wf_ty] in Hty. apply andb_true_iff in Hty as [Hty _]. apply andb_true_iff in Hty as [Hte _].
+  cbn [ReprProofs.Repr chunk_data] in Hr. rewrite E in Hr.
+  unfold view_set, check_index. cbn [view_len bind].
+  assert (((i <? 0)%Z || (Z.of_N k <=? i)%Z) = false) as -> by lia. cbn [bind].
+  unfold sub_set. cbn [elem_ty bind]. rewrite E.
+  assert (tree_depth (TVector e k) = contents_depth (TVector e k)) as -> by reflexivity.
+  destruct (packed_write (fun j v => setter_i H src false n j (contents_depth (TVector e k)) v)
+              (fun j => getter_i src n j (contents_depth (TVector e k))) (fun c => c)
+              _ n e s vs (Z.to_N i) x m Hte E Hall Hx Hm ltac:(lia) Hr) as (c' & Hs & Hc').
+  - intros j v Hj. apply crep_setter_i; [exact Hr|unfold lenN in *; rewrite map_length; exact Hj].
+  - intros j Hj. apply (getter_i_crep H src _ _ _ _ _ Hr). unfold lenN in *. rewrite map_length. exact Hj.
+  - cbv zeta in Hs. rewrite Hs. exists c'. split; [reflexivity|]. cbn [ReprProofs.Repr chunk_data]. rewrite E.
+    replace (Z.to_nat i) with (N.to_nat (Z.to_N i)) by lia. exact Hc'.
+Qed.
+
+Theorem packed_list_set e l s vs n i x m : wf_ty (TList e l) = true -> basic_size e = Some s ->
+  wf (TList e l) (VSeq vs) = true -> Repr (TList e l) (VSeq vs) n -> (0 <= i < Z.of_N (lenN vs))%Z -> wf e x = true -> Repr e x m ->
+  exists n', view_set H src (TList e l) n i m = Ok n' /\ Repr (TList e l) (VSeq (upd (Z.to_nat i) x vs)) n'.
+Proof.
+  intros Hty E Hwf Hr Hi Hx Hm. cbn [wf] in Hwf. apply andb_true_iff in Hwf as [Hn Hall]. apply N.leb_le in Hn.
+  cbn [wf_ty] in Hty. apply andb_true_iff in Hty as [Hte Hlb]. apply N.ltb_lt in Hlb. unfold LIMIT_BOUND in Hlb.
+  cbn [ReprProofs.Repr chunk_data] in Hr. destruct Hr as (c & -> & Hr). rewrite E in Hr.
+  unfold view_set, check_index. cbn [view_len]. rewrite (mixin_len_node H src c (lenN vs)) by lia. cbn [bind].
+  assert (((i <? 0)%Z || (Z.of_N (lenN vs) <=? i)%Z) = false) as -> by lia. cbn [bind].
+  unfold sub_set. cbn [elem_ty bind]. rewrite E.
+  assert (tree_depth (TList e l) = S (contents_depth (TList e l))) as -> by reflexivity.
+  destruct (packed_write (fun j v => setter_i H src false (PairN c (len_node (lenN vs))) j (S (contents_depth (TList e l))) v)
+              (fun j => getter_i src (PairN c (len_node (lenN vs))) j (S (contents_depth (TList e l)))) (fun c' => PairN c' (len_node (lenN vs)))
+              _ c e s vs (Z.to_N i) x m Hte E Hall Hx Hm ltac:(lia) Hr) as (c' & Hs & Hc').
+  - intros j v Hj. apply crep_setter_i_list; [exact Hr|unfold lenN in *; rewrite map_length; exact Hj].
+  - intros j Hj. apply (getter_i_crep_list H src _ _ _ _ _ _ Hr). unfold lenN in *. rewrite map_length. exact Hj.
+  - cbv zeta in Hs. rewrite Hs. eexists. split; [reflexivity|]. cbn [ReprProofs.Repr chunk_data]. exists c'.
+    split; [unfold lenN; now rewrite upd_len|]. rewrite E.
+    replace (Z.to_nat i) with (N.to_nat (Z.to_N i)) by lia. exact Hc'.
+Qed.
 
 (* ---- what Repr buys: indistinguishable from a freshly constructed value ---- *)
 Theorem repr_fresh t v n : wf_ty t = true -> wf t v = true -> Repr t v n ->
